@@ -134,6 +134,11 @@ class Outer(CompoundTensorOperator):
 
     def __init__(self, a, b):
         """Initialise."""
+        # __new__ may have returned an already initialised Outer (one of the
+        # arguments): Python still calls __init__ on it, and initialising it again
+        # would overwrite its operands (making the node its own operand).
+        if hasattr(self, "ufl_operands"):
+            return
         CompoundTensorOperator.__init__(self, (a, b))
         fi, fid = merge_nonoverlapping_indices(a, b)
         self.ufl_free_indices = fi
@@ -178,6 +183,11 @@ class Inner(CompoundTensorOperator):
 
     def __init__(self, a, b):
         """Initialise."""
+        # __new__ may have returned an already initialised Inner (one of the
+        # arguments): Python still calls __init__ on it, and initialising it again
+        # would overwrite its operands (making the node its own operand).
+        if hasattr(self, "ufl_operands"):
+            return
         CompoundTensorOperator.__init__(self, (a, b))
 
         fi, fid = merge_nonoverlapping_indices(a, b)
@@ -225,6 +235,11 @@ class Dot(CompoundTensorOperator):
 
     def __init__(self, a, b):
         """Initialise."""
+        # __new__ may have returned an already initialised Dot (one of the
+        # arguments): Python still calls __init__ on it, and initialising it again
+        # would overwrite its operands (making the node its own operand).
+        if hasattr(self, "ufl_operands"):
+            return
         CompoundTensorOperator.__init__(self, (a, b))
         fi, fid = merge_nonoverlapping_indices(a, b)
         self.ufl_free_indices = fi
@@ -371,6 +386,11 @@ class Determinant(CompoundTensorOperator):
 
     def __init__(self, A):
         """Initialise."""
+        # __new__ may have returned an already initialised Determinant (one of the
+        # arguments): Python still calls __init__ on it, and initialising it again
+        # would overwrite its operands (making the node its own operand).
+        if hasattr(self, "ufl_operands"):
+            return
         CompoundTensorOperator.__init__(self, (A,))
 
     def __str__(self):
